@@ -115,6 +115,44 @@ def r_converse(c):
                             f"edge {es} of {sk}: {who}",
                             facts={"users": fmt_paths(U1), "preds": fmt_paths(Pk)})
         if U2 is not None:
+            # connectivity: the users graph is not cut at this kind -- for every
+            # child-carrying path of the kind the node registers itself as a user
+            # of that child or of something below it (a NamedCallResult registers
+            # for the bindings of its call, skipping the Call, which is no array)
+            raw = set()
+            for ev in s2.keyed:
+                if ev.attr == "node_to_users" and () in paths_of(ev.value, "expr"):
+                    raw |= strip_markers(paths_of(ev.key, "expr"))
+            for pth, kindof in sorted(child_paths(m, k).items()):
+                if kindof not in ("array", "container"):
+                    continue
+                inst = f"{sk}.{'.'.join(pth)}"
+                reached = any(q[:len(pth)] == pth for q in raw)
+                if not reached and sk == "Call":
+                    # a Call is no array: its results stand in for it as users
+                    hn = handler_name(m, USERS, "pytato.function.NamedCallResult")
+                    if hn:
+                        sn = Flow(m, USERS, 8).handler(hn, "pytato.function.NamedCallResult")
+                        via = set()
+                        for ev in sn.keyed:
+                            if ev.attr == "node_to_users" and () in paths_of(ev.value, "expr"):
+                                via |= strip_markers(paths_of(ev.key, "expr"))
+                        reached = any(q[:1 + len(pth)] == ("_container",) + pth for q in via)
+                ex = EXEMPT.get(("R20-CONVERSE", "UsersCollector:" + inst))
+                if reached:
+                    c.ok("R20-CONVERSE", "UsersCollector:users-graph-connected", inst,
+                         s2.where[2])
+                elif ex:
+                    c.exempt("R20-CONVERSE", "UsersCollector:users-graph-connected", inst,
+                             s2.where[2], ex)
+                else:
+                    c.violation("R20-CONVERSE", "UsersCollector:users-graph-connected", inst,
+                                s2.where[2],
+                                f"UsersCollector registers a {sk} as a user of nothing at or "
+                                f"below its child `{'.'.join(pth)}`: get_users / "
+                                "rec_get_user_nodes of that child never reach this node or "
+                                "anything downstream of it",
+                                facts={"registered": fmt_paths(raw)})
             for e in sorted(U1):
                 inst = f"{sk}.{'.'.join(e)}"
                 ok = e in U2 or e in (U2o or ())
@@ -440,9 +478,43 @@ def r_deps_self(c):
         raise AnalysisError(f"only {n} dependency handlers analysed (floor 30)")
 
 
+def r_stateless_getters(c):
+    """the direct-predecessor getters are functions of the node they are asked
+    about: they keep nothing between calls (a memo keyed by id() outlives the
+    nodes it was filled for and answers for whatever is allocated at that address)"""
+    m = c.model
+    for q in ("pytato.analysis.ListOfDirectPredecessorsGetter",
+              "pytato.analysis.DirectPredecessorsGetter"):
+        ci = m.cls(q)
+        bad = []
+        for mn, fd in ci.methods.items():
+            for x in ast.walk(fd):
+                base = None
+                if isinstance(x, ast.Call) and isinstance(x.func, ast.Attribute) \
+                        and x.func.attr in ("add", "append", "update", "setdefault", "pop"):
+                    base = x.func.value
+                elif isinstance(x, ast.Subscript) and isinstance(x.ctx, (ast.Store, ast.Del)):
+                    base = x.value
+                if base is not None and ast.unparse(base).startswith("self."):
+                    bad.append((mn, x))
+            if mn == "__init__":
+                from pta.rules.common import _is_mutable_display
+                for st in ast.walk(fd):
+                    if isinstance(st, (ast.Assign, ast.AnnAssign)) and st.value is not None \
+                            and _is_mutable_display(st.value):
+                        tg = st.targets[0] if isinstance(st, ast.Assign) else st.target
+                        if isinstance(tg, ast.Attribute) and ast.unparse(tg.value) == "self":
+                            bad.append((mn, st))
+        c.check(not bad, "R20-CONVERSE", short(q), "keeps-nothing-between-calls",
+                m.loc(ci.module, bad[0][1] if bad else ci.node),
+                f"{short(q)}.{bad[0][0] if bad else ''} keeps a container on the instance "
+                f"(`{m.frag(bad[0][1], 50) if bad else ''}`): a getter reused for a second "
+                "graph answers with predecessors remembered from the first")
+
+
 SPEC = Spec(
     prop="C20",
-    rules=[r_converse, r_topo, r_count, r_materialized, r_deps_self],
+    rules=[r_converse, r_topo, r_count, r_materialized, r_deps_self, r_stateless_getters],
     floors={"R20-CONVERSE": 90, "R20-TOPO": 40, "R20-COUNT": 14,
             "R20-MATERIALIZED": 9, "R20-DEPS": 30},
     explanation=(
